@@ -59,4 +59,40 @@ func (p *projector) domain(k string, v []byte) bool {
 	return true
 }
 
-func (p *projector) evm(k []byte, v []byte) bool { return false }
+// emptyCodeHash is Keccak256(nil), the code hash of an account without code
+const emptyCodeHash = "c5d2460186f7233c927e7db2dcc703c0e500b653ca82273b7bfad8045d85a470"
+
+// evm projects the EVM side: keeper_<address> account records (nonce, code hash; the balance lives
+// in the balance store only), contracts_\x01<code hash> code and contracts_\x02<address><slot> storage.
+func (p *projector) evm(k []byte, v []byte) bool {
+	ks := string(k)
+	switch {
+	case strings.HasPrefix(ks, "keeper_"):
+		var r struct {
+			Address  string `json:"address"`
+			CodeHash []byte `json:"codeHash"`
+			Sequence int64  `json:"sequence"`
+		}
+		if err := json.Unmarshal(v, &r); err != nil {
+			return false
+		}
+		n := p.name(Hex(k[len("keeper_"):]))
+		p.s.Nonce[n] = r.Sequence
+		if len(r.CodeHash) > 0 && Hex(r.CodeHash) != emptyCodeHash {
+			p.s.Code[n] = 1
+		}
+		return true
+	case strings.HasPrefix(ks, "contracts_\x01"):
+		p.s.EvmCode[Hex(k[len("contracts_")+1:])] = int64(len(v))
+		return true
+	case strings.HasPrefix(ks, "contracts_\x02") && len(k) >= len("contracts_")+1+20:
+		rest := k[len("contracts_")+1:]
+		n := p.name(Hex(rest[:20]))
+		if p.s.EvmStore[n] == nil {
+			p.s.EvmStore[n] = map[string]string{}
+		}
+		p.s.EvmStore[n][Hex(rest[20:])] = Hex(v)
+		return true
+	}
+	return false
+}
